@@ -69,7 +69,7 @@ m={"version":1,"setup_cmd":"./verif.sh setup",
   {"name":"E-pool","path":"/verif/harness/pool","serves_properties":["C18","C19","C20"],"kind_free_text":"384 generated declared functions (distinct code pointers) forwarding to the monitor body: constructor ids, locations, callback names"},
   {"name":"E-graph","path":"/verif/harness/c05.go","serves_properties":["C05"],"kind_free_text":"hooks VerifIsAcyclic / VerifIsAcyclicSteps: the real cycle search on arbitrary digraphs (all up to 5 nodes, sampled up to 260 nodes) under a logical budget of successor look-ups"}],
  "checks":checks,"not_applicable":na,
- "notes":"Runtime monitoring only. Exit 0 held / 1 VIOLATION / 3 INCONCLUSIVE. KNOWN_FINDINGS.txt lists 27 genuine defects observed by the monitors: 23 repaired by fix: commits in /repo, 4 recorded as known findings (F16, F25 for C13; F22, F23 for C16). DESIGN.md sections 14 to 16 are authoritative for what exists."}
+ "notes":"Runtime monitoring only. Exit 0 held / 1 VIOLATION / 3 INCONCLUSIVE. KNOWN_FINDINGS.txt lists 28 genuine defects observed by the monitors: 23 repaired by fix: commits in /repo, 5 recorded as known findings (F16, F25, F28 for C13; F22, F23 for C16). DESIGN.md sections 14 to 16 are authoritative for what exists."}
 json.dump(m,open('/verif/MANIFEST.json','w'),indent=1)
 import jsonschema
 jsonschema.validate(m,json.load(open('/root/.vp/MANIFEST.schema.json')))
